@@ -26,6 +26,9 @@ try:
     demo_dir = os.path.join(wt, os.path.relpath(mdir, agent_wt))
     os.makedirs(demo_dir)
     shutil.copy(os.path.join(mdir, 'demo.cpp'), demo_dir)
+    for f in os.listdir(mdir):   # helper headers the demo includes
+        if f.endswith(('.hpp', '.h', '.inc')):
+            shutil.copy(os.path.join(mdir, f), demo_dir)
     open(os.path.join(demo_dir, 'build.sh'), 'w').write(build)
     def run_demo():
         rc, out = sh('sh ./build.sh 2>&1 | tail -5', cwd=demo_dir)
@@ -66,7 +69,7 @@ except Exception:
     meta['checks'] = {'error': r.stdout[-500:] + r.stderr[-500:]}
 dst = os.path.join('/verif/seeded', name)
 os.makedirs(dst, exist_ok=True)
-for f in ('patch.diff', 'demo.cpp', 'build.sh', 'README.md'):
+for f in ['patch.diff', 'demo.cpp', 'build.sh', 'README.md'] + [f for f in os.listdir(mdir) if f.endswith(('.hpp', '.h', '.inc'))]:
     if os.path.exists(os.path.join(mdir, f)):
         shutil.copy(os.path.join(mdir, f), dst)
 # paths inside build.sh refer to the author's scratch worktree: make them relative to a REPO variable
